@@ -30,10 +30,16 @@ PROP = "C04"
 
 def _presence_filtered(ctx: Ctx, top: Func, fl, arg: ast.Name, req: ast.Name) -> bool:
     """`arg` is defined once, as the (path, key) pairs of the evaluation's path map `req` whose key satisfies store.has_blob(key) - and nothing else"""
-    ds = fl.defs_of_use(arg)
-    if len(ds) != 1 or ds[0].value is None:
-        return False
-    v = ds[0].value
+    v = None
+    for _ in range(5):
+        ds = fl.defs_of_use(arg)
+        if len(ds) != 1 or ds[0].value is None:
+            return False
+        v = ds[0].value
+        if isinstance(v, ast.Name):
+            arg = v  # a plain copy (parameter binding of an expanded helper)
+            continue
+        break
     if isinstance(v, ast.Call) and unparse(v.func).split(".")[-1] in ("OrderedDict", "dict") and len(v.args) == 1 and not v.keywords:
         v = v.args[0]
     if not isinstance(v, (ast.ListComp, ast.GeneratorExp, ast.DictComp)) or len(v.generators) != 1:
